@@ -496,9 +496,6 @@ func (r *Resolver) resolveOne(ctx context.Context, name, typ string) ([]any, err
 		cache.Remove(key)
 		return nil, err
 	}
-	if len(res) == 0 {
-		ttl = 300
-	}
 	v.expiration = timeNow().Add(time.Second * time.Duration(ttl))
 	v.result = res
 	return res, nil
@@ -528,7 +525,9 @@ func (r *Resolver) resolveOneNoCache(ctx context.Context, name, typ string) ([]a
 		return nil, 0, fmt.Errorf("%s (%s): response code %d", name, typ, rc)
 	}
 	var res []any
-	var ttl uint32
+	// An answer without any record is cached for 5 minutes. Otherwise the
+	// records decide, also when none of them is of the requested type.
+	var ttl uint32 = 300
 	want := strings.TrimSuffix(name, ".")
 	for i, a := range result.Answer {
 		// The smallest TTL wins. Zero is a valid TTL (do not cache), not
